@@ -47,6 +47,7 @@ type Cut struct {
 	Dir    string `json:"dir"` // "ab" (dialer to acceptor) or "ba"
 	Offset int64  `json:"offset"` // counted from the end of the handshake head (first CRLFCRLF) of that direction
 	Abs    bool   `json:"abs,omitempty"` // Offset counts from the first byte of the direction instead
+	ErrKind string `json:"err_kind,omitempty"` // error styles: "" a private error value | ueof io.ErrUnexpectedEOF (what crypto/tls reports for a dropped connection) | closedpipe io.ErrClosedPipe | netclosed net.ErrClosed
 	Transient bool `json:"transient,omitempty"` // the error is reported once, then the stream carries on (a deadline that expired and was extended)
 	Style  int    `json:"style"` // fEOF, fEOFBytes, fErr, fErrBytes, fTimeout, fTimeoutBytes
 }
@@ -971,7 +972,7 @@ func (s *Sim) applyRead(r *parkRec, now time.Duration) {
 	if cutOff, ok := q.cutAt(); ok {
 		left := cutOff - q.handed
 		if left <= 0 {
-			r.resErr = cutErr(q.cut.Style)
+			r.resErr = cutErrKind(q.cut)
 			r.fault = q.cut.Style
 			if !q.cutDone {
 				q.cutDone = true
@@ -993,7 +994,7 @@ func (s *Sim) applyRead(r *parkRec, now time.Duration) {
 			}
 			r.resN = n
 			if withBytes && n == avail {
-				r.resErr = cutErr(q.cut.Style)
+				r.resErr = cutErrKind(q.cut)
 				r.fault = q.cut.Style
 				q.cutDone = true
 				if q.cut.Transient {
@@ -1016,6 +1017,20 @@ func (s *Sim) applyRead(r *parkRec, now time.Duration) {
 		return
 	}
 	s.harness = append(s.harness, "read released while not enabled")
+}
+
+func cutErrKind(c *Cut) error {
+	if c.Style == fErr || c.Style == fErrBytes {
+		switch c.ErrKind {
+		case "ueof":
+			return io.ErrUnexpectedEOF
+		case "closedpipe":
+			return io.ErrClosedPipe
+		case "netclosed":
+			return net.ErrClosed
+		}
+	}
+	return cutErr(c.Style)
 }
 
 func cutErr(style int) error {
